@@ -7,10 +7,10 @@ from sim import Config, var, W, R, P, A, N, D, RW
 
 PROP = "C15"
 LEVEL = "exploration"
-RULE = ("emergency tables (1..32 errors, register bit 0..7 each, class sharing, generic-class errors) x history depths 0..8 x histories of "
+RULE = ("emergency tables (1..32 errors, register bit 0..7 each, class sharing, generic-class errors) x history depths 0..8 (wrap-around also at depths 127, 128 and 254) x histories of "
         "COEmcySet(with/without manufacturer bytes)/COEmcyClr/COEmcyReset(silent?)/write 1003h:0 (0 and non-zero)/NMT changes incl. reset "
         "communication/1014h rewrites incl. disabling: complete enumeration to the depth bound on a 4-error table (two errors sharing a "
-        "class, one generic) plus random histories; after EVERY step frames, COEmcyCnt, COEmcyGet, 1001h and 1003h:0..depth (API and SDO) "
+        "class, one generic) plus random histories, plus histories with a status TPDO that maps 1001h and an application that reads count / 1003h:0 / 1001h inside COPdoTransmit; after EVERY step frames, COEmcyCnt, COEmcyGet, 1001h and 1003h:0..depth (API and SDO) "
         "are compared with the reference model; non-trivial = history with >= 2 real transitions; distinct by script")
 ASSUMPTIONS = ["error indices < table length (API precondition), or >= CO_EMCY_N with a full table (documented: treated as the last row)", "reading 1003h above the stored count is not constrained",
                "whether the history survives a reset communication is not constrained (the model adopts the observed count after a reset)"]
@@ -247,13 +247,59 @@ def enum_alphabet():
     return a
 
 
+def run_observer(res, exe, rng):
+    """A status TPDO (type 254) maps the error register 1001h (asynchronous): every change of the register sends it, and what the
+    application sees of the emergency state inside COPdoTransmit - count, history depth, register - is the state AFTER that change."""
+    nid = rng.choice([1, 2, 100])
+    table = [(rng.choice([0, 1, 2, 3, 4, 5, 7]), 0x1000 + 0x111 * i) for i in range(rng.choice([2, 4, 8]))]
+    depth = rng.choice([1, 2, 4, 8])
+    cfg = Config(nodeid=nid, freq=1000, tmrnum=8)
+    gen.add_mandatory(cfg, hb=0, emcy_id=0x80, emcy_hist=depth, ssdo=1, ssdo_rw=False)
+    o = cfg.get(0x1001, 0)
+    o.flags |= S.A | S.P
+    gen.add_tpdo(cfg, 0, 0x40000180, 254, 0, 0, [gen.maplink(0x1001, 0, 8)])
+    cfg.emcy = table
+    cfg.finalize()
+    sim = S.Sim(exe, cfg)
+    try:
+        m = EModel(table, depth, nid, 0x80 + nid)
+        m.mode = 3
+        sim.rx(0, bytes([1, nid]))
+        sim.cmd("pdotxprobe 1")
+        script = []
+        for _ in range(rng.choice([10, 25, 40])):
+            e = rng.randrange(len(table))
+            before = m.register()
+            if rng.random() < 0.6:
+                script.append("set %d" % e); m.set(e); evs = sim.cmd("emcyset %d" % e)
+            else:
+                script.append("clr %d" % e); m.clr(e); evs = sim.cmd("emcyclr %d" % e)
+            seen = [(int(c[1]), int(c[2]), int(c[3])) for c in S.cbs(evs, "pdotxemcy")]
+            want = [(sum(m.active), len(m.hist), m.register())] if m.register() != before else []
+            res.counters["observations_inside_transmit_callback"] += len(seen)
+            if seen != want:
+                res.violation("c15/observer/inside-transmit-callback", "table %r depth %d: inside COPdoTransmit of the status TPDO the application saw (active errors, 1003h:0, 1001h) = %r, reference %r | script: %s" % (
+                    table, depth, seen, want, "; ".join(script[-8:])), sim=sim)
+                return False
+        res.evals += 1
+        res.nt("observer", tuple(script))
+        return True
+    except S.SimDied as e:
+        res.violation("c15/crash/" + e.signature, "executor died: " + e.signature, sim=sim, detail=e.detail[-2000:])
+        return False
+    finally:
+        sim.close()
+
+
 def plan(tier, seed):
     q = tier == "quick"
     alpha = enum_alphabet()
     depth = 4 if q else 5
     items = [("enum", depth, a, b) for a in range(len(alpha)) for b in range(len(alpha))]
     items += [("rand", i, 40 if q else 400) for i in range(32 if q else 200)]
+    items += [("observer", i, 30 if q else 300) for i in range(8 if q else 32)]
     items += [("wrap", d, 0) for d in range(1, 9)]
+    items += [("wrap", d, 1) for d in ((127, 128, 254) if q else (126, 127, 128, 129, 200, 253, 254))]       # deep histories: ring positions beyond 127
     return items
 
 
@@ -277,6 +323,10 @@ def work(item, ctx):
                         break
             finally:
                 sim.close()
+        elif kind == "observer":
+            for h in range(item[2]):
+                if not run_observer(res, exe, rng):
+                    break
         elif kind == "rand":
             for h in range(item[2]):
                 cfg, nid, table, depth = make(rng)
@@ -320,7 +370,7 @@ def work(item, ctx):
             cfg.finalize()
             sim = S.Sim(exe, cfg)
             try:
-                for fill in range(0, 2 * d + 2):
+                for fill in (range(0, 2 * d + 2) if d < 100 else (d + 1, 2 * d + 1)):
                     ops = []
                     for i in range(fill):
                         ops += [("set", i % 6, i, bytes(5)), ("clr", i % 6)]
